@@ -88,6 +88,22 @@ impl<F: AsFd, E> Generic<F, E> {
     pub closed spec fn want_mode(&self) -> Mode { self.mode }
     /// the OS poller remembered at registration (to delete the fd on unwrap/drop)
     pub closed spec fn stored_poller(&self) -> crate::polling::Poller { *self.poller->Some_0 }
+    /// What `reregister` guarantees beyond the trait contract. One text for the contract of the trait impl and for the
+    /// slice that proves its body under the may-call guard (unit `generic`).
+    pub open spec fn reregister_post(o: &Self, n: &Self, p: &Poll, tf: &TokenFactory, ok: bool) -> bool {
+        &&& ok ==> (n.tok() matches Some(t) && t.tok() == tf.next())
+        // C16/C02: Ok means the kernel registration HAS been replaced by (interest, mode, key of the token now remembered):
+        // the key the kernel reports and the token process_events compares against cannot drift apart
+        &&& ok ==> p.pl().w_modified(o.raw(), crate::sys::expected_event(o.want_interest(), n.tok()->Some_0),
+                                     crate::sys::spec_cvt_mode(o.want_mode(), p.pl().spec_supports_level()))
+        &&& n.raw() == o.raw() && n.want_interest() == o.want_interest() && n.want_mode() == o.want_mode()
+    }
+    /// What `unregister` guarantees beyond the trait contract (same arrangement).
+    pub open spec fn unregister_post(o: &Self, n: &Self, p: &Poll, ok: bool) -> bool {
+        // C16: Ok means the wrapped fd HAS been deleted from the OS poller
+        &&& ok ==> p.pl().w_deleted(o.raw())
+        &&& n.raw() == o.raw()
+    }
 }
 //@ endregion
 
@@ -170,7 +186,9 @@ impl<F: AsFd, E> Generic<F, E> {
         &&& ok ==> n.tok() is Some && n.has_poller()
         &&& !ok ==> n.tok() == o.tok() && n.has_poller() == o.has_poller()
     }
-    open spec fn reregister_req(&self) -> bool { self.wf() && self.registered() }
+    /// (taken from the property: `update()` may be called on a disabled source, `disable()` / `remove()` on one that is
+    /// already disabled -- so neither reregister nor unregister presupposes a registration)
+    open spec fn reregister_req(&self) -> bool { self.wf() }
     open spec fn reregister_ens(o: &Self, n: &Self, ok: bool) -> bool {
         &&& n.wf() && n.has_poller() == o.has_poller()
         &&& ok ==> n.tok() is Some
@@ -218,28 +236,74 @@ impl<F: AsFd, E> Generic<F, E> {
 //@ entry
         proof { broadcast use crate::ext::axiom_fd_raw_ref; }
 //@ enditem
+//@ if generic_guard
+//@ item src/sources/generic.rs / impl EventSource for Generic<F, E> / fn reregister props=C16,C15,C01,C02,C03,C19 sigonly ret=r
+//@ else
 //@ item src/sources/generic.rs / impl EventSource for Generic<F, E> / fn reregister props=C16,C15,C01,C02,C03,C19 ret=r
+//@ endif
 //@ spec
-        ensures
-            r is Ok ==> (final(self).tok() matches Some(t) && t.tok() == old(token_factory).next()),
-            // C16/C02: Ok means the kernel registration HAS been replaced by (interest, mode, key of the token now remembered):
-            // the key the kernel reports and the token process_events compares against cannot drift apart
-            r is Ok ==> old(poll).pl().w_modified(old(self).raw(), crate::sys::expected_event(old(self).want_interest(), final(self).tok()->Some_0),
-                                             crate::sys::spec_cvt_mode(old(self).want_mode(), old(poll).pl().spec_supports_level())),
-            final(self).raw() == old(self).raw(), final(self).want_interest() == old(self).want_interest(), final(self).want_mode() == old(self).want_mode(),
+        ensures Self::reregister_post(old(self), final(self), &*old(poll), &*old(token_factory), r is Ok),
+//@ if !generic_guard
 //@ entry
         proof { broadcast use crate::ext::axiom_fd_raw_ref; }
+//@ endif
 //@ enditem
+//@ if generic_guard
+//@ item src/sources/generic.rs / impl EventSource for Generic<F, E> / fn unregister props=C16,C15,C07,C03,C19 sigonly ret=r
+//@ else
 //@ item src/sources/generic.rs / impl EventSource for Generic<F, E> / fn unregister props=C16,C15,C07,C03,C19 ret=r
+//@ endif
 //@ spec
-        ensures
-            // C16: Ok means the wrapped fd HAS been deleted from the OS poller
-            r is Ok ==> old(poll).pl().w_deleted(old(self).raw()),
-            final(self).raw() == old(self).raw(),
+        ensures Self::unregister_post(old(self), final(self), &*old(poll), r is Ok),
+//@ if !generic_guard
 //@ entry
         proof { broadcast use crate::ext::axiom_fd_raw_ref; }
+//@ endif
 //@ enditem
 //@ close
+
+//@ if generic_guard
+impl<F: AsFd, E> Generic<F, E> {
+//@ slice src/sources/generic.rs / impl EventSource for Generic<F, E> / fn reregister :: body props=C16,C15,C01,C02,C03,C19,C07 name=Generic::reregister
+//@ sig
+    /// S1 slice: the whole body of `<Generic as EventSource>::reregister`, as a method of its own: a trait impl cannot carry a
+    /// precondition of its own, and the may-call side below is one. The trait impl is signature-only in this unit; its
+    /// contract (`reregister_ens`, `reregister_post`) is what is proved here, from the same text.
+    fn reregister_body(&mut self, poll: &mut Poll, token_factory: &mut TokenFactory) -> (r: crate::Result<()>)
+//@ spec
+        requires
+            old(self).wf(),
+            // C16/C07 (may-call side, taken from the property: "disabling or enabling one source never disturbs any other",
+            // "the same fd can be inserted again"): the ONLY poller entry this source may replace is the one of its own
+            // fd, and only while it HOLDS a registration -- once it has been unregistered (disabled) the entry under that
+            // fd number may belong to another source
+            forall|d: int| #[trigger] old(poll).pl().may_rereg(d) <==> (d == old(self).raw() && old(self).tok() is Some),
+        ensures
+            Self::reregister_ens(old(self), final(self), r is Ok),
+            Self::reregister_post(old(self), final(self), &*old(poll), &*old(token_factory), r is Ok),
+            final(token_factory).reg() == old(token_factory).reg(),
+//@ entry
+        proof { broadcast use crate::ext::axiom_fd_raw_ref; }
+//@ endslice
+//@ slice src/sources/generic.rs / impl EventSource for Generic<F, E> / fn unregister :: body props=C16,C15,C07,C03,C19 name=Generic::unregister
+//@ sig
+    /// S1 slice: the whole body of `<Generic as EventSource>::unregister` (same arrangement).
+    fn unregister_body(&mut self, poll: &mut Poll) -> (r: crate::Result<()>)
+//@ spec
+        requires
+            old(self).wf(),
+            // C16/C07 (may-call side): the ONLY poller entry this source may delete is the one of its own fd, and only
+            // while it holds a registration (a second disable(), or remove() of a disabled source, must not take the fd of
+            // whoever was inserted on it since out of the poller)
+            forall|d: int| #[trigger] old(poll).pl().may_delete(d) <==> (d == old(self).raw() && old(self).tok() is Some),
+        ensures
+            Self::unregister_ens(old(self), final(self), r is Ok),
+            Self::unregister_post(old(self), final(self), &*old(poll), r is Ok),
+//@ entry
+        proof { broadcast use crate::ext::axiom_fd_raw_ref; }
+//@ endslice
+}
+//@ endif
 
 //@ region generic_obeys_protocol props=C18,C16
 /// Generic implements the documented child protocol (used for children of TransientSource)
